@@ -145,21 +145,31 @@ def run_config(args):
                 await r0.close()
         # init: key to stdout
         repo = mk()
+        if mode == 'reinit':
+            # the same Repository object created an unencrypted repository before (then the store was wiped and the
+            # repository is created again, encrypted): nothing of the first life may carry over
+            with W.captured():
+                await repo.init(settings={'chunking': {'min_length': chunker[0], 'max_length': chunker[1]},
+                                          'hashing': dict(ha), 'encryption': None})
+                await repo.snapshot(paths=[src1], note='first life')
+                await repo.list_snapshots()
+            st.o.clear()
+            del st.mutations[:]
         with W.captured() as (o, e):
             res = await repo.init(password=PASSWORDS['A'], settings=copy.deepcopy(settings))
         stdout_all.append(o.getvalue() + e.getvalue())
         keyA = repo.serialize(res.key)
         keyfiles['A(stdout)'] = keyA
         users['A'] = W.User('A', PASSWORDS['A'], keyA)
-        repos = {'A': repo} if mode in ('long-lived', 'stale-exists') else {}
+        repos = {'A': repo} if mode in ('long-lived', 'stale-exists', 'reinit') else {}
 
         async def get(u):
-            if mode in ('long-lived', 'stale-exists') and u in repos:
+            if mode in ('long-lived', 'stale-exists', 'reinit') and u in repos:
                 return repos[u]
             r = mk()
             with W.captured():
                 await r.unlock(password=users[u].password, key=users[u].key)
-            if mode in ('long-lived', 'stale-exists'):
+            if mode in ('long-lived', 'stale-exists', 'reinit'):
                 repos[u] = r
             return r
 
@@ -386,7 +396,7 @@ def main():
     cases = []
     for ci in CIPHERS:
         for ha in HASHES:
-            for mode in ('fresh', 'long-lived', 'shared-cache'):
+            for mode in ('fresh', 'long-lived', 'shared-cache', 'reinit'):
                 cases.append((ci, ha, mode, (4, 8)))
     for ch in ((8, 16), (16, 16), (1, 4)):
         for ci in (CIPHERS[0], CIPHERS[3]):
